@@ -14,9 +14,14 @@
 (* delivered at every step.  The timestamp of a notification is its change number.     *)
 (*                                                                                    *)
 (* Deviations of the real code from the design that satisfies C34 are named branches:  *)
-(*   StaleLeftEpoch    a departure adopts rebalanceLeftLatestEpoch / is assigned a      *)
-(*                     starting epoch although that epoch began BEFORE the departure    *)
-(*                     (latest epoch is never reset and ordering is not compared)       *)
+(*   StaleLeftEpoch    trackNodeLeftEvent: a departure adopts rebalanceLeftLatestEpoch  *)
+(*                     although that epoch began BEFORE the departure (the latest epoch *)
+(*                     is never reset and is not compared with the departure)           *)
+(*   LateStartReassign processRebalanceStart: a node-left start that arrives for the    *)
+(*                     first time sets rebalanceLeftLatestEpoch even when a NEWER epoch *)
+(*                     already started (arrival order, not epoch order) and             *)
+(*                     assignLeftEpochLocked re-assigns EVERY pending departure to it,  *)
+(*                     also departures that happened after that epoch began             *)
 (*   SelfNodeLeft      trackNodeLeftEvent has no "ignore self" test (join has one)      *)
 (*   StickyLeftFilter  nodeLeftEventsFilter is never cleared (a node that left,         *)
 (*                     re-joined and leaves again gets no second NodeLeft)              *)
@@ -26,7 +31,7 @@ EXTENDS Integers, Sequences, FiniteSets, TLC
 CONSTANTS Peers, Self, MaxEpoch, Defects
 
 Nodes == Peers \cup {Self}
-RealDefects == {"StaleLeftEpoch", "SelfNodeLeft", "StickyLeftFilter"}
+RealDefects == {"StaleLeftEpoch", "LateStartReassign", "SelfNodeLeft", "StickyLeftFilter"}
 
 VARIABLES chg,            \* ground truth, Seq([kind : {"join","left","other"}, node])
           joinTs, leftTs, \* nodeJoinTimestamps / nodeLeftTimestamps   [Nodes -> Nat], 0 = no entry
@@ -116,7 +121,7 @@ Start(e, reason, node) ==
        /\ UNCHANGED core
   ELSE /\ startSeen' = startSeen \cup {e}
        /\ IF reason = "left"
-          THEN LET stale == "StaleLeftEpoch" \in Defects
+          THEN LET stale == "LateStartReassign" \in Defects
                    le1 == [m \in Nodes |-> IF leftTs[m] # 0 /\ (stale \/ (leftTs[m] <= e /\ leftEp[m] <= e))
                                            THEN e ELSE leftEp[m]]     \* assignLeftEpochLocked
                    r == IF e \in completeSeen THEN EmitPendingLeft(e, leftTs, le1, joinedF, leftF)
